@@ -169,6 +169,8 @@ def run_job(job):
                 R['paths'] += 1
                 R['domain_assumptions'] += len(cx.domain)
                 _collect(R, cx, replay_cb=try_replay)
+                if opts.get('fail_fast') and R['violations']:
+                    break
     except PathBound as e:
         R['inconclusive'].append(dict(label='path-bound', why=str(e)))
     except Exception as e:  # noqa: harness/engine error
@@ -219,8 +221,11 @@ def _collect(R, cx, replay_cb=None):
             else:
                 R['inconclusive'].append(dict(label=ob['label'], why='ground failure on a path of unknown feasibility', detail=ob.get('detail', '')))
         else:
-            # unknown: try a model of a weaker query to obtain a candidate input
-            R['inconclusive'].append(dict(label=ob['label'], why='solver answered unknown', t=ob.get('t')))
+            # unknown: no model; generic inputs are tried as candidates (the replay decides), otherwise inconclusive
+            n0 = len(R['inconclusive'])
+            if not replay_cb(cx, ob['label'], {}, 'unknown', ob.get('detail', '')):
+                del R['inconclusive'][n0:]
+                R['inconclusive'].append(dict(label=ob['label'], why='solver answered unknown', t=ob.get('t')))
     if nontriv:
         R['nontrivial'] += 1
 
